@@ -174,8 +174,11 @@ CLAIMED = {
              'reported by get_all_items().',
         ref='DESIGN.md §7 C12'),
     'C18': dict(
-        technique='Lean 4 proof (list induction, exact rationals, verification histories by induction) + differential '
-                  'correspondence run comparing f64 bit patterns',
+        technique='Lean 4 proof (list induction, exact rationals, verification histories by induction) about the default methods '
+                  'of AssumableReasoning / InferableReasoning / ObservableReasoning, Inferable / Observable, impl Assumable for '
+                  'Assumption and abs_num as regenerated from their current source by the fail-closed translator '
+                  'tools/rs2lean_collections.py (Gen/Collections.lean; Props/C18Gen.lean proves every generated definition equal '
+                  'to the model for all inputs) + differential correspondence run comparing f64 bit patterns',
         text='Theorems for arbitrary member predicates (the f64 comparisons enter as arbitrary functions): c18_assumable_counts, '
              'c18_assumable_partition (valid/invalid and tested/untested partition the collection, List.Perm), '
              'c18_percent_assumption_valid, c18_inferable_counts, c18_percent_inferable (x100), c18_not_both_inferable and '
@@ -183,11 +186,19 @@ CLAIMED = {
              'c18_number_observation (number_non = len - number = count of the complement), c18_percent_observation (scale 0..1), '
              'c18_totalCmp_total_order (bit-pattern model of f64::total_cmp), c18_tested_from_first_verify_on, '
              'c18_valid_only_after_true, c18_verify_returns_verdict, c18_collection_member_history (every member under every history of '
-             'verify_all / member verifications). Correspondence: real Vec collections with boundary values (equal to threshold, '
-             'adjacent floats, +-0.0, NaN, inf, subnormals, 4-decimal truncation edges); floats compared as bit patterns, the exact '
-             'rational percentages of the model are checked against the printed floats.',
-        note='Trusted: Lean kernel, Model/Reasoning.lean (hand-written), Lean runtime Float = IEEE binary64 for re-computing '
-             'percentages and member predicates (execution only), NaN canonicalised.',
+             'verify_all / member verifications). Tie to the source: Props/C18Gen.lean, one `<method>_eq` theorem per generated '
+             'definition (35: abs_num, Assumption::new and the three impl methods, 9 AssumableReasoning, 3 Inferable, 13 '
+             'InferableReasoning, effect_observed, 4 ObservableReasoning) for every member type, reader dictionary, KeyOps and '
+             'collection content, and the laws restated on the generated definitions: c18gen_not_both_inferable, '
+             'c18gen_inferable_counts, c18gen_assumable, c18gen_observable, c18gen_flags. Correspondence: real Vec collections with '
+             'boundary values (equal to threshold, adjacent floats, +-0.0, NaN, inf, subnormals, 4-decimal truncation edges); floats '
+             'compared as bit patterns, the exact rational percentages of the model are checked against the printed floats.',
+        note='Trusted: Lean kernel, rs2lean_collections.py (~1350 lines: tokeniser + Pratt parser + typed translation; grammar in '
+             'its docstring; refuses anything else, an override of a default method in an impl, and locals that would capture '
+             'generated names), the IEEE identities a<b = b>a, a<=b = b>=a, a!=b = !(a==b) used when emitting comparisons, '
+             'Arc<RwLock<bool>> as plain cells, len() = get_all_items().len() (hypothesis hlen of the equalities; the containers\' '
+             'own len), Lean runtime Float = IEEE binary64 for re-computing percentages and member predicates (execution only), '
+             'NaN canonicalised. Model/Reasoning.lean is no longer trusted for C18: it is proved equal to the generated definitions.',
         ref='DESIGN.md §7 C18'),
     'C03': dict(
         technique='Lean 4 proof (refinement of a map specification by induction over the call history; characterisation of '
